@@ -4,6 +4,7 @@ import (
 	"bytes"
 	"fmt"
 	"path/filepath"
+	"strings"
 
 	"github.com/itchio/wharf/pwr"
 	"verif/lib"
@@ -64,7 +65,36 @@ func c08Run(c lib.Case, env *lib.Env) lib.Result {
 			sz = 40*lib.MB + 12345
 			nfiles = 1
 		}
-		d := lib.RandomBytes(sz, r.Uint64()) // high-entropy content only (the statement's domain)
+		d := lib.RandomBytes(sz, r.Uint64()) // the edit bound is stated for high-entropy content only
+		if !strings.HasPrefix(s.Deriv, "edits") && s.Deriv != "mixed" {
+			// the "already present => nothing fresh" clauses hold for ANY content: zero files, zero blocks inside
+			// random data, the same block stored back to back, short periods
+			switch r.Intn(6) {
+			case 0:
+				d = make([]byte, sz)
+			case 1:
+				if sz >= 3*lib.BS {
+					z := (r.Range64(0, sz-2*lib.BS) / lib.BS) * lib.BS
+					for k := int64(0); k < lib.BS; k++ {
+						d[z+k] = 0
+					}
+					if r.Bool() {
+						for k := int64(0); k < lib.BS && k < z; k++ {
+							d[k] = 0 // the file also starts with a zero block
+						}
+					}
+				}
+			case 2:
+				if sz >= 2*lib.BS {
+					tile := lib.RandomBytes(lib.BS, r.Uint64())
+					for off := int64(0); off+lib.BS <= sz && off < 3*lib.BS; off += lib.BS {
+						copy(d[off:], tile)
+					}
+				}
+			case 3:
+				d = lib.MakeContent(lib.CPeriod, sz, r.Uint64(), r)
+			}
+		}
 		path := fmt.Sprintf("%sf%d.bin", []string{"", "d/", "d/e/"}[r.Intn(3)], i)
 		old.PutFile(path, d)
 		olds = append(olds, of{path, d})
